@@ -175,30 +175,12 @@ def _type_id(cx, s, make):
     return len(cx.types) - 1
 
 
-def _desugar_for_each(cx, bb):
-    """it.for_each(|x| body)  ==  loop { match it.next() { Some(x) => body, None => break } }
-
-    `Iterator::for_each` with a closure literal is the documented equivalent of the `for` loop (the default method
-    folds over `next()`; the std iterators that override it keep that meaning). The call is replaced by the loop a
-    `for` over the same iterator lowers to: `Iterator::next(&mut it)`, a switch on the discriminant, the closure body
-    inlined on the Some arm, the back edge."""
+def _next_loop(cx, bb, it, ity, item, make_body, result_rv, tag):
+    """replaces the call at bb by  loop { match Iterator::next(&mut it) { Some(x) => body(x), None => break } };
+    make_body(x_operand, back_block) -> entry block of the body (or None); result_rv: what the call's destination gets"""
     blk = cx.blocks[bb]
     t = blk["term"]
-    args = t["args"]
-    if len(args) != 2 or t["dest"]["p"]:
-        return False
-    ipl = args[0].get("m")
-    if ipl is None or ipl["p"]:
-        return False
-    closure = _closure_def(cx.body, args[1])
-    if closure is None:
-        return False
-    callee = cx.by_key.get(closure[0])
-    if callee is None or callee.get("arg_count") != 2:
-        return False
     sp, D, cont = t["sp"], t["dest"], t["to"]
-    it, ity = ipl["l"], ipl["t"]
-    item = callee["locals"][2]["ty"]
     its, items = cx.types[ity], cx.types[item]
 
     def opt_ty():
@@ -216,35 +198,186 @@ def _desugar_for_each(cx, bb):
     o = cx.new_local(oty)
     r = cx.new_local(rty)
     d = cx.new_local(cx.isize)
-    # exit: the unit result
-    done = cx.new_block([_assign(copy.deepcopy(D), {"r": "agg", "kind": "tuple", "fields": []}, sp)], {"t": "goto", "to": cont, "sp": sp})
+    done = cx.new_block([_assign(copy.deepcopy(D), result_rv, sp)], {"t": "goto", "to": cont, "sp": sp})
     head = cx.new_block([_assign(_pl(r, rty), {"r": "ref", "mut": True, "pl": _pl(it, ity)}, sp)], None)
     back = cx.new_block([], {"t": "goto", "to": head, "sp": sp})
-    res = _inline_closure(cx, closure[0], closure[1], [_use({"m": _pl(o, item, [{"d": 1, "n": "Some"}, {"f": 0, "n": "0", "t": item}])})], back, sp)
-    if res is None:
+    entry = make_body({"m": _pl(o, item, [{"d": 1, "n": "Some"}, {"f": 0, "n": "0", "t": item}])}, back)
+    if entry is None:
         return False
-    entry = res[0]
     unreachable = cx.new_block([], {"t": "unreachable", "sp": sp})
     test = cx.new_block(
         [_assign(_pl(d, cx.isize), {"r": "discr", "pl": _pl(o, oty)}, sp)],
-        {"t": "switch", "on": {"m": _pl(d, cx.isize)}, "targets": [[0, done], [1, entry]], "otherwise": unreachable, "sp": sp, "desugared": "for_each", "desugared_adt": OPT},
+        {"t": "switch", "on": {"m": _pl(d, cx.isize)}, "targets": [[0, done], [1, entry]], "otherwise": unreachable, "sp": sp, "desugared": tag, "desugared_adt": OPT},
     )
-    f = {
+    nxt = {"t": "call", "f": _next_fn(cx, ity), "args": [{"m": _pl(r, rty)}], "dest": _pl(o, oty), "to": test, "sp": [sp[0], "Desugaring(ForLoop)"] if isinstance(sp, list) and sp else sp}
+    if t.get("unwind") is not None:
+        nxt["unwind"] = t["unwind"]
+    cx.blocks[head]["term"] = nxt
+    blk["term"] = {"t": "goto", "to": head, "sp": sp, "desugared": tag}
+    return True
+
+
+def _next_fn(cx, ity):
+    return {
         "key": "core::iter::traits::iterator::Iterator::next",
         "path": "std::iter::Iterator::next",
-        "full": "<%s as std::iter::Iterator>::next" % its["s"],
+        "full": "<%s as std::iter::Iterator>::next" % cx.types[ity]["s"],
         "name": "next",
         "local": False,
         "args": [ity],
         "trait": "std::iter::Iterator",
         "self_ty": ity,
     }
-    nxt = {"t": "call", "f": f, "args": [{"m": _pl(r, rty)}], "dest": _pl(o, oty), "to": test, "sp": [sp[0], "Desugaring(ForLoop)"] if isinstance(sp, list) and sp else sp}
-    if t.get("unwind") is not None:
-        nxt["unwind"] = t["unwind"]
-    cx.blocks[head]["term"] = nxt
-    blk["term"] = {"t": "goto", "to": head, "sp": sp, "desugared": "for_each"}
-    return True
+
+
+def _desugar_for_each(cx, bb):
+    """it.for_each(|x| body)  ==  loop { match it.next() { Some(x) => body, None => break } }
+
+    `Iterator::for_each` with a closure literal is the documented equivalent of the `for` loop (the default method
+    folds over `next()`; the std iterators that override it keep that meaning). The call is replaced by the loop a
+    `for` over the same iterator lowers to: `Iterator::next(&mut it)`, a switch on the discriminant, the closure body
+    inlined on the Some arm, the back edge."""
+    t = cx.blocks[bb]["term"]
+    args = t["args"]
+    if len(args) != 2 or t["dest"]["p"]:
+        return False
+    ipl = args[0].get("m")
+    if ipl is None or ipl["p"]:
+        return False
+    closure = _closure_def(cx.body, args[1])
+    if closure is None:
+        return False
+    callee = cx.by_key.get(closure[0])
+    if callee is None or callee.get("arg_count") != 2:
+        return False
+    sp = t["sp"]
+
+    def body(x, back):
+        res = _inline_closure(cx, closure[0], closure[1], [_use(x)], back, sp)
+        return None if res is None else res[0]
+
+    return _next_loop(cx, bb, ipl["l"], ipl["t"], callee["locals"][2]["ty"], body, {"r": "agg", "kind": "tuple", "fields": []}, "for_each")
+
+
+def _desugar_extend(cx, bb):
+    """v.extend(it)  ==  for x in it { v.push(x) }   for a Vec and an iterator adaptor of std::iter (the documented
+    meaning of `Extend for Vec`; the reservation hint is not modelled)"""
+    t = cx.blocks[bb]["term"]
+    args = t["args"]
+    if len(args) != 2 or t["dest"]["p"]:
+        return False
+    vpl, ipl = args[0].get("m") or args[0].get("c"), args[1].get("m")
+    if vpl is None or vpl["p"] or ipl is None or ipl["p"]:
+        return False
+    vref = cx.types[vpl["t"]]
+    if vref.get("k") != "ref" or not cx.types[ipl["t"]]["s"].startswith("std::iter::"):
+        return False
+    vty = vref["t"]
+    vt = cx.types[vty]
+    if vt.get("path") != "std::vec::Vec" or not vt.get("args"):
+        return False
+    item = vt["args"][0]
+    sp = t["sp"]
+    unit = next((i for i, x in enumerate(cx.types) if x["s"] == "()"), None)
+    if unit is None:
+        return False
+
+    def body(x, back):
+        rb = cx.new_local(vpl["t"])
+        u = cx.new_local(unit)
+        f = {"key": "alloc::vec::Vec::push", "path": "std::vec::Vec::<T, A>::push", "full": "%s::push" % vt["s"], "name": "push", "local": False, "args": list(vt.get("args", [])), "self_ty": vty}
+        call = {"t": "call", "f": f, "args": [{"m": _pl(rb, vpl["t"])}, x], "dest": _pl(u, unit), "to": back, "sp": sp}
+        if t.get("unwind") is not None:
+            call["unwind"] = t["unwind"]
+        return cx.new_block([_assign(_pl(rb, vpl["t"]), {"r": "ref", "mut": True, "pl": _pl(vpl["l"], vty, ["*"])}, sp)], call)
+
+    return _next_loop(cx, bb, ipl["l"], ipl["t"], item, body, {"r": "agg", "kind": "tuple", "fields": []}, "extend")
+
+
+def _unique_def_call(body, l):
+    """the call terminator that is the only definition of local l, else None"""
+    found = None
+    for _ in range(6):
+        # follow `l = move l0` (the temporary a value is moved through on its way into a call)
+        ads = [st for blk in body["blocks"] for st in blk["st"] if st["s"] == "assign" and st["pl"]["l"] == l and not st["pl"]["p"]]
+        cds = [blk["term"] for blk in body["blocks"] if blk["term"]["t"] == "call" and blk["term"]["dest"]["l"] == l and not blk["term"]["dest"]["p"]]
+        if len(ads) == 1 and not cds and ads[0]["rv"]["r"] == "use" and (ads[0]["rv"]["o"].get("m") or {}).get("p") == []:
+            l = ads[0]["rv"]["o"]["m"]["l"]
+            continue
+        break
+    for blk in body["blocks"]:
+        for st in blk["st"]:
+            if st["s"] == "assign" and st["pl"]["l"] == l and not st["pl"]["p"]:
+                return None
+        t = blk["term"]
+        if t["t"] == "call" and t["dest"]["l"] == l and not t["dest"]["p"]:
+            if found is not None:
+                return None
+            found = t
+    return found
+
+
+def _desugar_adaptor_next(cx, bb):
+    """`Iterator::next` on an adaptor built in this body from a closure literal:
+         iter::from_fn(f).next()  ==  f()
+         inner.map(g).next()      ==  inner.next().map(g)
+    (the definitions of FromFn and Map). The adaptor value only wraps its parts, so the local that was moved into it
+    stands for that part."""
+    blk = cx.blocks[bb]
+    t = blk["term"]
+    if len(t["args"]) != 1 or t["dest"]["p"]:
+        return False
+    rpl = t["args"][0].get("m") or t["args"][0].get("c")
+    if rpl is None or rpl["p"]:
+        return False
+    # the receiver is `&mut it`
+    rdefs = [st for b_ in cx.blocks for st in b_["st"] if st["s"] == "assign" and st["pl"]["l"] == rpl["l"] and not st["pl"]["p"]]
+    if not rdefs or any(st["rv"]["r"] != "ref" or st["rv"]["pl"]["p"] for st in rdefs) or len({st["rv"]["pl"]["l"] for st in rdefs}) != 1:
+        return False
+    it = rdefs[0]["rv"]["pl"]["l"]
+    mk = _unique_def_call(cx.body, it)
+    if mk is None or not mk.get("f"):
+        return False
+    sp, D, cont = t["sp"], t["dest"], t["to"]
+    path = mk["f"].get("path")
+    if path == "std::iter::from_fn" and len(mk["args"]) == 1:
+        closure = _closure_def(cx.body, mk["args"][0])
+        if closure is None:
+            return False
+        join = cx.new_block([], {"t": "goto", "to": cont, "sp": sp})
+        r = _inline_closure(cx, closure[0], closure[1], [], join, sp)
+        if r is None:
+            return False
+        entry, lo, rty = r
+        cx.blocks[join]["st"].append(_assign(copy.deepcopy(D), _use({"m": _pl(lo, rty)}), sp))
+        blk["term"] = {"t": "goto", "to": entry, "sp": sp, "desugared": "from_fn.next"}
+        return True
+    if path == "std::iter::Iterator::map" and mk["f"].get("trait") == "std::iter::Iterator" and len(mk["args"]) == 2:
+        ipl = mk["args"][0].get("m")
+        closure = _closure_def(cx.body, mk["args"][1])
+        if ipl is None or ipl["p"] or closure is None:
+            return False
+        callee = cx.by_key.get(closure[0])
+        if callee is None or callee.get("arg_count") != 2:
+            return False
+        inner_item = callee["locals"][2]["ty"]
+        items, its = cx.types[inner_item], cx.types[ipl["t"]]
+        oty = _type_id(cx, OPT + "<" + items["s"] + ">", lambda: dict({k: items.get(k) for k in ("has_param", "has_dyn", "has_closure", "params")}, **{"s": OPT + "<" + items["s"] + ">", "adts": [OPT] + [a for a in items.get("adts", []) if a != OPT], "k": "adt", "path": OPT, "key": "core::option::Option", "local": False, "args": [inner_item], "synthetic": True}))
+        rty = _type_id(cx, "&mut " + its["s"], lambda: dict({k: its.get(k) for k in ("has_param", "has_dyn", "has_closure", "params", "adts")}, **{"s": "&mut " + its["s"], "k": "ref", "mut": True, "t": ipl["t"], "synthetic": True}))
+        o2 = cx.new_local(oty)
+        r2 = cx.new_local(rty)
+        mapf = {"key": "core::option::Option::map", "path": OPT + "::<T>::map", "full": OPT + "::<%s>::map" % items["s"], "name": "map", "local": False, "args": [inner_item]}
+        mapcall = {"t": "call", "f": mapf, "args": [{"m": _pl(o2, oty)}, copy.deepcopy(mk["args"][1])], "dest": copy.deepcopy(D), "to": cont, "sp": sp}
+        if t.get("unwind") is not None:
+            mapcall["unwind"] = t["unwind"]
+        mb = cx.new_block([], mapcall)
+        blk["st"].append(_assign(_pl(r2, rty), {"r": "ref", "mut": True, "pl": _pl(ipl["l"], ipl["t"])}, sp))
+        nxt = {"t": "call", "f": _next_fn(cx, ipl["t"]), "args": [{"m": _pl(r2, rty)}], "dest": _pl(o2, oty), "to": mb, "sp": sp}
+        if t.get("unwind") is not None:
+            nxt["unwind"] = t["unwind"]
+        blk["term"] = nxt
+        return True
+    return False
 
 
 def desugar_call(cx, bb):
@@ -260,6 +393,11 @@ def desugar_call(cx, bb):
         return _desugar_bool_then(cx, bb, name)
     if path == "std::iter::Iterator::for_each" and f.get("trait") == "std::iter::Iterator":
         return _desugar_for_each(cx, bb)
+    if path == "std::iter::Extend::extend":
+        return _desugar_extend(cx, bb)
+    if path == "std::iter::Iterator::next" and f.get("trait") == "std::iter::Iterator" and not t.get("adaptor_tried"):
+        t["adaptor_tried"] = True
+        return _desugar_adaptor_next(cx, bb)
     if path.startswith(OPT + "::<T>::") and name in OPTION_COMBINATORS:
         adt = OPT
     elif path.startswith(RES + "::<T, E>::") and name in RESULT_COMBINATORS:
@@ -495,7 +633,7 @@ def devirtualize_call(cx, bb):
     return True
 
 
-def apply(raw_bodies, types, rounds=4):
+def apply(raw_bodies, types, rounds=6):
     """returns {closure key: owner path} for the closures that were expanded in place"""
     by_key = {b["key"]: b for b in raw_bodies}
     expanded = {}
